@@ -249,5 +249,15 @@ def timeSequence (startT endT dt : α) : List α :=
       -- 1e-6 is the double literal; the model compares with 1/10^6 (see Sampling notes)
       if NumOrd.lt (lit 1 / lit 1000000) ad then seq ++ [endT] else seq
 
+/-- `getTrajectoryLength(start, end, dt)`: left-endpoint Riemann sum of speed over the time sequence -/
+def trajLength (p : PPoly α) (sqrt : α → α) (startT endT dt : α) : PPoly α × α :=
+  let seq := timeSequence startT endT dt
+  let rec go (q : PPoly α) (acc : α) : List α → PPoly α × α
+    | t0 :: t1 :: rest =>
+        let (q', v) := q.evaluate t0 1
+        go q' (acc + sqrt (dot v v) * (t1 - t0)) (t1 :: rest)
+    | _ => (q, acc)
+  go p (lit 0) seq
+
 end PPoly
 end ST
